@@ -649,5 +649,116 @@ example (b : BaseGrid ℝ) : WF (⟨[(Text.S "R", b), (Text.S "A", b), (Text.S "
 example : bilinear (1 : ℝ) 2 3 4 (1 / 2) (1 / 2) = 5 / 2 := by
   rw [bilinear_eq]; norm_num
 
+/-! ### the inverse of a datum shift -/
+
+section inverse
+open Ops
+variable {R : Type} [Scalar R]
+
+/-- what the inverse of a datum shift returns when it returns something (two-band grids): the last estimate `t`
+of the iteration, corrected once more by an update `d = t − coord + shift(t)` that was shorter than the
+tolerance — so that `r = coord − shift(t)` with `t` within the tolerance of `r` -/
+theorem gridshift_inv_sound (gs : List (GridObj R)) (useNull : Bool) (coord r : Coor R)
+    (hb : ((gs.head?.map (·.bands)) == some 1) = false)
+    (h : Gridshift.inv gs useNull coord = some r) :
+    ∃ t t2 : Coor R, gridsAtObjs gs t.c0 t.c1 useNull = some t2 ∧
+      r = Coor.sub t (Coor.add (Coor.sub t coord) t2) ∧
+      Scalar.lt (Scalar.hypot (Coor.add (Coor.sub t coord) t2).c0 (Coor.add (Coor.sub t coord) t2).c1) 1e-12 = true := by
+  unfold Gridshift.inv at h
+  cases h0 : gridsAtObjs gs coord.c0 coord.c1 useNull with
+  | none => simp [h0] at h
+  | some t0 =>
+    simp only [h0, hb, Bool.false_eq_true, if_false] at h
+    -- the invariant of the ten rounds
+    let P : Gridshift.InvState R → Prop := fun s => ∀ r, s.done = some (some r) →
+      ∃ t t2 : Coor R, gridsAtObjs gs t.c0 t.c1 useNull = some t2 ∧
+        r = Coor.sub t (Coor.add (Coor.sub t coord) t2) ∧
+        Scalar.lt (Scalar.hypot (Coor.add (Coor.sub t coord) t2).c0 (Coor.add (Coor.sub t coord) t2).c1) 1e-12 = true
+    have hfold : ∀ (l : List Nat) (f : Gridshift.InvState R → Nat → Gridshift.InvState R) (s0 : Gridshift.InvState R),
+        P s0 → (∀ s x, P s → P (f s x)) → P (l.foldl f s0) := by
+      intro l f
+      induction l with
+      | nil => intro s0 h0 _; exact h0
+      | cons a l ih => intro s0 h0 hstep; exact ih _ (hstep _ _ h0) hstep
+    have hP := hfold (List.range 10)
+      (fun s _ =>
+        match s.done with
+        | some _ => s
+        | none =>
+          match gridsAtObjs gs s.t.c0 s.t.c1 useNull with
+          | some t2 =>
+            if Scalar.lt (Scalar.hypot (Coor.add (Coor.sub s.t coord) t2).c0 (Coor.add (Coor.sub s.t coord) t2).c1) 1e-12 = true then
+              { t := Coor.sub s.t (Coor.add (Coor.sub s.t coord) t2),
+                done := some (some (Coor.sub s.t (Coor.add (Coor.sub s.t coord) t2))) }
+            else { t := Coor.sub s.t (Coor.add (Coor.sub s.t coord) t2) }
+          | none => { t := s.t, done := some none })
+      ({ t := Coor.sub coord t0 } : Gridshift.InvState R)
+      (by intro r hr; simp at hr)
+      (by
+        intro s _ hs
+        cases hd : s.done with
+        | some v => simpa [hd] using hs
+        | none =>
+          simp only [hd]
+          cases hg : gridsAtObjs gs s.t.c0 s.t.c1 useNull with
+          | none => intro r hr; simp at hr
+          | some t2 =>
+            simp only
+            split
+            · rename_i hlt
+              intro r hr
+              simp only [Option.some.injEq] at hr
+              exact ⟨s.t, t2, hg, hr.symm, hlt⟩
+            · intro r hr; simp at hr)
+    generalize hfin : (List.foldl _ _ (List.range 10)) = fin at h hP
+    cases hd : fin.done with
+    | none => simp [hd] at h
+    | some v =>
+      simp only [hd] at h
+      subst h
+      exact hP r hd
+
+/-- the tolerance the iteration of the inverse is run to -/
+noncomputable def shiftTol : ℝ := @OfScientific.ofScientific ℝ Scalar.instOfScientific 1 true 12
+theorem shiftTol_eq : shiftTol = 1 / 10 ^ 12 := by
+  simp [shiftTol, OfScientific.ofScientific, Scalar.ofSci, Lit.toReal]
+
+/-- **the inverse of a datum shift undoes the forward shift to within the tolerance of its iteration times the
+roughness of the grids**: if the corrections of two points `p`, `q` never differ by more than `L` times their
+distance, then shifting back what the inverse returned misses the point asked for by less than `L · 10^-12` -/
+theorem gridshift_roundtrip_bound (gs : List (GridObj ℝ)) (useNull : Bool) (coord r f : Coor ℝ) (L : ℝ) (hL : 0 ≤ L)
+    (hb : ((gs.head?.map (·.bands)) == some 1) = false)
+    (hlip : ∀ (p q s1 s2 : Coor ℝ), gridsAtObjs gs p.c0 p.c1 useNull = some s1 → gridsAtObjs gs q.c0 q.c1 useNull = some s2 →
+      Real.sqrt ((s1.c0 - s2.c0) ^ 2 + (s1.c1 - s2.c1) ^ 2) ≤ L * Real.sqrt ((p.c0 - q.c0) ^ 2 + (p.c1 - q.c1) ^ 2))
+    (hinv : Gridshift.inv gs useNull coord = some r) (hfwd : Gridshift.fwd gs useNull r = some f) :
+    Real.sqrt ((f.c0 - coord.c0) ^ 2 + (f.c1 - coord.c1) ^ 2) ≤ L * shiftTol := by
+  obtain ⟨t, t2, ht, hr, hd⟩ := gridshift_inv_sound gs useNull coord r hb hinv
+  unfold Gridshift.fwd at hfwd
+  cases hs : gridsAtObjs gs r.c0 r.c1 useNull with
+  | none => simp [hs] at hfwd
+  | some sr =>
+    simp only [hs, hb, Bool.false_eq_true, if_false, Option.some.injEq] at hfwd
+    have hf0 : f.c0 = r.c0 + sr.c0 := by rw [← hfwd]
+    have hf1 : f.c1 = r.c1 + sr.c1 := by rw [← hfwd]
+    have hr0 : r.c0 = coord.c0 - t2.c0 := by rw [hr]; simp only [Coor.sub, Coor.add]; ring
+    have hr1 : r.c1 = coord.c1 - t2.c1 := by rw [hr]; simp only [Coor.sub, Coor.add]; ring
+    -- the last update is the distance between the last two estimates
+    have hdist : Real.sqrt ((r.c0 - t.c0) ^ 2 + (r.c1 - t.c1) ^ 2) < shiftTol := by
+      rw [scalar_lt, decide_eq_true_eq, scalar_hypot] at hd
+      have e : (r.c0 - t.c0) ^ 2 + (r.c1 - t.c1) ^ 2 =
+          (Coor.add (Coor.sub t coord) t2).c0 * (Coor.add (Coor.sub t coord) t2).c0 +
+            (Coor.add (Coor.sub t coord) t2).c1 * (Coor.add (Coor.sub t coord) t2).c1 := by
+        rw [hr0, hr1]; simp only [Coor.sub, Coor.add]; ring
+      rw [e]; exact hd
+    have hl := hlip r t sr t2 hs ht
+    have e2 : (f.c0 - coord.c0) ^ 2 + (f.c1 - coord.c1) ^ 2 = (sr.c0 - t2.c0) ^ 2 + (sr.c1 - t2.c1) ^ 2 := by
+      rw [hf0, hf1, hr0, hr1]; ring
+    rw [e2]
+    calc Real.sqrt ((sr.c0 - t2.c0) ^ 2 + (sr.c1 - t2.c1) ^ 2)
+        ≤ L * Real.sqrt ((r.c0 - t.c0) ^ 2 + (r.c1 - t.c1) ^ 2) := hl
+      _ ≤ L * shiftTol := mul_le_mul_of_nonneg_left hdist.le hL
+
+end inverse
+
 end C08
 end Geodesy
